@@ -315,6 +315,14 @@ impl IndexExpression {
     }
 }
 
+/// Hook for external verification harnesses: read-only view of the two fields.
+#[cfg(feature = "oq3_verif")]
+impl IndexExpression {
+    pub fn verif_parts(&self) -> (&TExpr, &IndexOperator) {
+        (&self.expr, &self.index)
+    }
+}
+
 #[derive(Clone, Debug, PartialEq)]
 pub struct ReturnExpression {
     value: Option<TExpr>,
